@@ -1,6 +1,7 @@
 package slip10_test
 
 import (
+	"fmt"
 	"crypto/ed25519"
 	stdelliptic "crypto/elliptic"
 	"crypto/hmac"
@@ -23,6 +24,7 @@ var errPerm = errors.New("verif: permanent curve error")
 
 type toyCurve struct {
 	script []string
+	wrap   bool
 	pos    int
 	calls  [][]byte
 }
@@ -42,6 +44,9 @@ func (c *toyCurve) answer(buf []byte) error {
 	case "ok":
 		return nil
 	case "invalid":
+		if c.wrap { // an invalid-key answer may come wrapped (errors.Is still recognises it)
+			return fmt.Errorf("toy curve: candidate rejected: %w", slip10.ErrInvalidKey)
+		}
 		return slip10.ErrInvalidKey
 	}
 	return errPerm
@@ -237,7 +242,7 @@ func runF(op string, in M) (M, M) {
 	case "slip10.master":
 		seed := vBuf("slip10 seed", in["seed"]) // the caller's buffer, reused from call to call with other seeds
 		var c slip10.Curve
-		tc := &toyCurve{script: scriptOf(in)}
+		tc := &toyCurve{script: scriptOf(in), wrap: in["wrapped"] == true}
 		if curve == "toy" {
 			c = tc
 		} else {
@@ -258,7 +263,7 @@ func runF(op string, in M) (M, M) {
 		index := uint32(idx[1]) | uint32(idx[0])<<31
 		chain := vBytes(in["chain"])
 		privBytes := vBytes(in["parent_priv"])
-		tc := &toyCurve{script: scriptOf(in)}
+		tc := &toyCurve{script: scriptOf(in), wrap: in["wrapped"] == true}
 		var parentKey slip10.Key
 		var parentObj *slip10.ExtendedKey
 		if in["obj_seed"] != nil && curve != "toy" {
